@@ -346,6 +346,23 @@ def make_proofs(clean=False, timeout=3000):
 THEOREM = re.compile(r"^\s*(Theorem|Corollary)\s+([A-Za-z0-9_']+)", re.M)
 
 
+def coqchk_props(prop_id, timeout=3000):
+    """Independent re-check of the compiled Props/<id>.vo and everything it depends on (thorough tier only: minutes).
+    Returns dict(ok, axioms(list), log)."""
+    p = run(["coqchk", "-silent", "-o", "-Q", COQ, "WTF", "WTF.Props." + prop_id], cwd=COQ, timeout=timeout)
+    out = p.stdout.decode(errors="replace") + p.stderr.decode(errors="replace")
+    ok = p.returncode == 0
+    axioms = []
+    m = re.search(r"\* Axioms:(.*?)\n\s*\n\* Constants/Inductives relying on type-in-type", out, re.S)
+    if m:
+        axioms = [l.strip() for l in m.group(1).splitlines() if l.strip() and l.strip() != "<none>"]
+    for key in ("relying on type-in-type", "relying on unsafe (co)fixpoints", "whose positivity is assumed"):
+        mm = re.search(re.escape(key) + r":\s*(.*)", out)
+        if not mm or mm.group(1).strip() != "<none>":
+            ok = False
+    return {"ok": ok, "axioms": axioms, "log": out[-3000:]}
+
+
 def check_props(prop_id, timeout=900):
     """Re-compile Props/<id>.v (theorem statements closed by `exact`), capture Print Assumptions.
     Returns dict(obligations, discharged, assumptions(list), log, ok)."""
